@@ -378,6 +378,10 @@ def sub_ly_values(ctx, shard, n):
     ctx.exhaustive("every vocabulary value through from_Track (LilyPond and MusicXML)", "80 values", len(cases))
     ctx.enumerate("ly_track", check_ly_track, cases)
     ctx.enumerate("mx_track", check_mx_track, cases)
+    # bars holding one entry (a rest, an empty container or a note of value 1, 2, 4 or the beat unit) in every meter
+    lone = SG.lone_entry_tracks([m for m in SG.ALL_METERS if m[0] in (1, 2, 3, 5, 6, 12)] if ctx.quick else None)
+    ctx.enumerate("ly_track", check_ly_track, lone)
+    ctx.enumerate("mx_track", check_mx_track, lone)
 
 
 def sub_mx(ctx, shard, n):
